@@ -1525,4 +1525,187 @@ theorem shapeDoc_idem (d : DocD) : shapeDoc (shapeDoc d) = shapeDoc d := by
     exact List.map_congr_left (fun t _ => shapeTrigger_idem t)
   simp only [shapeDoc, h1, h2, h3, h4]
 
+/-! ### the shape of a valid document is valid (so the second round trip is covered too) -/
+
+theorem truthy_builtin : truthy jTypeBuiltin = true := by decide
+
+theorem validAction_render (a : ActionD) (h : validAction a = true) : validAction (renderAction a) = true := by
+  cases a with
+  | sendMsg u t att q au tp tm =>
+    simp only [validAction, Bool.and_eq_true] at h
+    simp only [renderAction, validAction, Bool.and_eq_true]
+    refine ⟨?_, h.2⟩
+    rw [List.all_eq_true]
+    intro x hx
+    exact (List.mem_filter.mp hx).2
+  | setContactField u n k t v => simpa [validAction, renderAction] using h
+  | setContactProperty u p v => exact h
+  | _ => rfl
+
+theorem actionType_render (a : ActionD) : actionType (renderAction a) = actionType a := by
+  cases a <;> rfl
+
+theorem untypedAction_render (a : ActionD) (h : untypedAction a = true) : untypedAction (renderAction a) = true := by
+  cases a with
+  | setContactField u n k t v =>
+    simp only [untypedAction, Option.isNone_iff_eq_none] at h
+    subst h
+    cases hb : fieldTypeBug <;> simp [renderAction, untypedAction, hb]
+  | _ => rfl
+
+theorem gref_renderGroup (g : GroupD) : gref (renderGroup g) = gref g := rfl
+
+theorem actionGroupRefs_render (a : ActionD) : actionGroupRefs (renderAction a) = actionGroupRefs a := by
+  cases a with
+  | addGroups u gs => simp [renderAction, actionGroupRefs, List.map_map, Function.comp_def, gref_renderGroup]
+  | removeGroups u gs ag => simp [renderAction, actionGroupRefs, List.map_map, Function.comp_def, gref_renderGroup]
+  | _ => rfl
+
+theorem actionFlowRefs_render (a : ActionD) : actionFlowRefs (renderAction a) = actionFlowRefs a := by
+  cases a <;> rfl
+
+theorem validExit_render (e : ExitD) (h : validExit e = true) : validExit (renderExit e) = true := by
+  simp only [validExit, Bool.and_eq_true, bne_iff_ne, ne_eq] at h ⊢
+  refine ⟨h.1, ?_⟩
+  simp only [renderExit]
+  by_cases hd : e.dest.getD jNull = jHardExit
+  · simp [hd]; decide
+  · simp [hd]
+
+theorem renderExit_uuid (e : ExitD) : (renderExit e).uuid = e.uuid := rfl
+
+theorem validRouter_shape (r : RouterD) : validRouter (shapeRouter r) = validRouter r := by
+  cases r <;> rfl
+
+theorem routerCatsD_shape (r : RouterD) : routerCatsD (shapeRouter r) = routerCatsD r := by
+  cases r <;> rfl
+
+theorem orderedRouter_shape (r : RouterD) : orderedRouter (shapeRouter r) = orderedRouter r := by
+  cases r <;> rfl
+
+theorem routerCasesD_shape (r : RouterD) : routerCasesD (shapeRouter r) = routerCasesD r := by
+  cases r <;> rfl
+
+theorem orderedNode_shape (n : NodeD) : orderedNode (shapeNode n) = orderedNode n := by
+  cases n with
+  | mk u a r e =>
+    cases r with
+    | none => rfl
+    | some r => simp [orderedNode, shapeNode, orderedRouter_shape]
+
+theorem exitsByCats_shape (n : NodeD) : exitsByCats (shapeNode n) = exitsByCats n := by
+  cases n with
+  | mk u a r e =>
+    cases r with
+    | none => rfl
+    | some r => simp [exitsByCats, shapeNode, routerCatsD_shape, List.map_map, Function.comp_def, renderExit_uuid]
+
+theorem validNode_shape (n : NodeD) (h : validNode n = true) : validNode (shapeNode n) = true := by
+  cases n with
+  | mk uuid actions router exits =>
+  simp only [validNode, Bool.and_eq_true, bne_iff_ne, ne_eq, decide_eq_true_eq] at h
+  obtain ⟨⟨⟨⟨huuid, hexits⟩, hnd⟩, hacts⟩, hrouter⟩ := h
+  have h1 : (exits.map renderExit).all validExit = true := by
+    rw [List.all_eq_true]
+    intro x hx
+    obtain ⟨e, he, rfl⟩ := List.mem_map.mp hx
+    exact validExit_render e ((List.all_eq_true.mp hexits) e he)
+  have h2 : ((exits.map renderExit).map (·.uuid)).Nodup := by
+    have : (exits.map renderExit).map (·.uuid) = exits.map (·.uuid) := by
+      rw [List.map_map]; rfl
+    rw [this]; exact hnd
+  have h3 : (actions.map renderAction).all validAction = true := by
+    rw [List.all_eq_true]
+    intro x hx
+    obtain ⟨a, ha, rfl⟩ := List.mem_map.mp hx
+    exact validAction_render a ((List.all_eq_true.mp hacts) a ha)
+  simp only [validNode, shapeNode, Bool.and_eq_true, bne_iff_ne, ne_eq, decide_eq_true_eq]
+  refine ⟨⟨⟨⟨huuid, h1⟩, by simpa using h2⟩, h3⟩, ?_⟩
+  cases router with
+  | none => simpa using hrouter
+  | some r =>
+    cases r with
+    | random cats rn =>
+      simp only [Bool.and_eq_true, beq_iff_eq] at hrouter
+      obtain ⟨hvr, hnil⟩ := hrouter
+      subst hnil
+      simp only [Option.map_some, shapeRouter, List.map_nil, Bool.and_eq_true, beq_iff_eq, and_true]
+      exact hvr
+    | switch op cases cats dflt wait rn =>
+      simp only [Bool.and_eq_true] at hrouter
+      obtain ⟨hvr, hsh⟩ := hrouter
+      simp only [Option.map_some, shapeRouter, Bool.and_eq_true]
+      refine ⟨hvr, ?_⟩
+      match actions, hsh with
+      | [], _ => rfl
+      | [a], hsh => simpa [actionType_render] using hsh
+
+theorem nodeRefsD_shape (n : NodeD) : nodeRefsD (shapeNode n) = nodeRefsD n := by
+  rw [nodeRefsD_eq, nodeRefsD_eq]
+  have h1 : (shapeNode n).actions.map actionGroupRefs = n.actions.map actionGroupRefs := by
+    simp only [shapeNode, List.map_map]
+    exact List.map_congr_left (fun a _ => actionGroupRefs_render a)
+  have h2 : nodeCasesD (shapeNode n) = nodeCasesD n := by
+    cases n with
+    | mk u a r e =>
+      cases r with
+      | none => rfl
+      | some r => simp [nodeCasesD, shapeNode, routerCasesD_shape]
+  rw [h1, h2]
+
+theorem nodeFlowRefsD_shape (n : NodeD) : nodeFlowRefsD (shapeNode n) = nodeFlowRefsD n := by
+  simp only [nodeFlowRefsD, shapeNode, List.map_map]
+  congr 1
+  exact List.map_congr_left (fun a _ => actionFlowRefs_render a)
+
+theorem validFlow_shape (f : FlowD) (h : validFlow f = true) : validFlow (shapeFlow f) = true := by
+  simp only [validFlow, Bool.and_eq_true] at h ⊢
+  refine ⟨h.1, ?_⟩
+  simp only [shapeFlow]
+  rw [List.all_eq_true]
+  intro x hx
+  obtain ⟨n, hn, rfl⟩ := List.mem_map.mp hx
+  exact validNode_shape n ((List.all_eq_true.mp h.2) n hn)
+
+theorem renderCampaign_valid (c : CampaignD) (h : validCampaign c = true) :
+    renderCampaign c = { c with group := renderGroup c.group } := by
+  simp only [validCampaign, Bool.and_eq_true] at h
+  have he : c.events.map renderEvent = c.events :=
+    map_id_of_forall _ (fun e he => renderEvent_id e ((List.all_eq_true.mp h.2) e he))
+  simp only [renderCampaign, he]
+
+theorem validCampaign_render (c : CampaignD) (h : validCampaign c = true) : validCampaign (renderCampaign c) = true := by
+  rw [renderCampaign_valid c h]
+  exact h
+
+theorem validTrigger_shape (t : TriggerD) (h : validTrigger t = true) : validTrigger (renderTrigger (trigImg t)) = true := by
+  simp only [validTrigger, Bool.and_eq_true] at h
+  obtain ⟨hch, hkw⟩ := h
+  have hK : ¬ (t.type = strK ∧ firstFalsy (normKeywords t) = true) := by
+    intro ⟨h1, h2⟩
+    cases t with
+    | mk type keyword keywords channel matchType flow groups excludeGroups =>
+    simp only at h1 hkw
+    cases keywords with
+    | some ks => cases keyword <;> simp_all [normKeywords]
+    | none =>
+      cases keyword with
+      | none => simp at hkw
+      | some k =>
+        have : falsy k = true := by
+          by_cases hn : isNull k = true
+          · exact isNull_falsy k hn
+          · simpa [normKeywords, hn, firstFalsy] using h2
+        simp [h1, this] at hkw
+  simp only [validTrigger, renderTrigger, trigImg, Bool.and_eq_true, hch, true_and]
+  constructor
+  · by_cases hk : t.type = strK
+    · have hff : firstFalsy (normKeywords t) = false := by
+        cases hff : firstFalsy (normKeywords t) with
+        | false => rfl
+        | true => exact absurd ⟨hk, hff⟩ hK
+      simp [hk, hff]
+    · simp [hk]
+  · cases normKeywords t <;> simp
+
 end Rpft.Document
